@@ -14,14 +14,17 @@ import time
 import traceback
 
 ROOT = os.path.dirname(os.path.dirname(os.path.abspath(__file__)))
-REPO = '/repo'
-DRIVER_DIR = os.path.join(ROOT, 'driver')
+# The registered checks always run against /repo with /verif/driver. The two environment variables exist only for tools/matrix.sh,
+# which tries the seeded changes on a scratch copy of the repository (outside /repo and /verif) with a scratch copy of the driver
+# crate whose path dependency points at that copy, so that /repo stays untouched while the matrix runs.
+REPO = os.environ.get('SCVERIF_REPO', '/repo')
+DRIVER_DIR = os.environ.get('SCVERIF_DRIVER_DIR', os.path.join(ROOT, 'driver'))
 DRIVER_BIN = os.path.join(DRIVER_DIR, 'target', 'debug', 'scdriver')
 SHIM_SRC = os.path.join(ROOT, 'shim', 'fakeclock.c')
 SHIM_LIB = os.path.join(ROOT, 'shim', 'libfakeclock.so')
-EVIDENCE_DIR = os.path.join(ROOT, 'evidence')
-REPLAY_DIR = os.path.join(ROOT, 'replays')
-WORK_DIR = os.path.join(ROOT, 'work')
+EVIDENCE_DIR = os.environ.get('SCVERIF_EVIDENCE_DIR', os.path.join(ROOT, 'evidence'))
+REPLAY_DIR = os.environ.get('SCVERIF_REPLAY_DIR', os.path.join(ROOT, 'replays'))
+WORK_DIR = os.environ.get('SCVERIF_WORK_DIR', os.path.join(ROOT, 'work'))
 KNOWN_FILE = os.path.join(ROOT, 'KNOWN_FINDINGS.txt')
 
 HANG_CPU_S = 60.0          # CPU seconds without a completed op => hang witness
